@@ -91,9 +91,10 @@ class GStore(QueueStorage):
         self.inner, self.ctl, self.gate, self.copy, self.announce = inner, ctl, gate, copy, announce
         self.fail_writes = set(fail_writes)
         self.nwrites = 0
+        self.gate_ops = None
 
     def _gate(self, op, sid):
-        if self.gate:
+        if self.gate and (self.gate_ops is None or op in self.gate_ops):
             self.ctl.park('store', (op, sid))
 
     def _call(self, fn, *a):
@@ -278,6 +279,8 @@ class Scenario(object):
         self.inner = make_inner(cfg)
         gate = cfg.get('gate_store', False)
         self.store = GStore(self.inner, c, gate, cfg.get('copy', cfg.get('backend') == 'gdict'), announce=cfg.get('announce', False))
+        if cfg.get('gate_ops'):
+            self.store.gate_ops = set(cfg['gate_ops'])
         fr = list(cfg.get('fast_relay') or [])
         if fr:
             self.relay = GRelay(c, gate=False, script=lambda sid, pos, attempts: fr.pop(0) if fr else 'ok')
@@ -330,6 +333,7 @@ class Scenario(object):
         self.pending_msgs = list(range(1, cfg.get('nmsgs', 1) + 1))
         self.flushes = cfg.get('flush', 0)
         self.announces = 2 if cfg.get('announce') else 0
+        self.new_left = 1 if cfg.get('announce_new') else 0
         self.greenlets = []
         self.gkinds = []
         self.msgenv = {}
@@ -378,6 +382,8 @@ class Scenario(object):
                 if s['kind'] == 'wait':
                     for sid in sorted(c.stored)[:2]:
                         opts.append(('announce', i, sid))
+                    if self.cfg.get('announce_new') and self.new_left > 0:
+                        opts.append(('announce_new', i))
         return opts
 
     def outcomes(self, n):
@@ -416,6 +422,18 @@ class Scenario(object):
         elif opt[0] == 'adv':
             CLOCK.fire_next()
             c.log(t='advance', now=c.now())
+        elif opt[0] == 'announce_new':
+            # a message written to the shared storage by another process, learnt through wait()
+            self.new_left -= 1
+            m = 90 + self.new_left
+            env = self.make_env(m)
+            raw = self.inner.write(env.copy(), CLOCK.now)
+            sid = c.sid(raw)
+            c.rcpts[sid] = list(env.recipients)
+            c.stored.add(sid)
+            c.log(t='store', op='write', id=sid, ts=int(CLOCK.now), n=len(env.recipients), sender=1, bounce=0, now=c.now())
+            c.log(t='enq_ret', msg=m, ids=[sid], now=c.now())
+            c.release(opt[1], [(CLOCK.now, raw)])
         elif opt[0] == 'announce':
             self.announces -= 1
             raw = [r for r, k in c.ids.items() if k == opt[2]][0]
@@ -571,7 +589,7 @@ def run_plan(cfg, make_inner, plan, on_trace=None):
                 return i
             if o[0] == 'relay' and want == 'relay:' + o[2]:
                 return i
-            if o[0] in ('enq', 'adv', 'flush', 'announce') and o[0] == want:
+            if o[0] in ('enq', 'adv', 'flush', 'announce', 'announce_new') and o[0] == want:
                 return i
         return None
     ev, taken = sc.run(chooser)
